@@ -10,6 +10,10 @@ CHECKS = {
    technique="TLA+ spec HybridBuffer (TLC exhaustive safety + liveness) bound to the real bufferer by script replay of TLC behaviours and TLC trace validation (HybridBufferTrace) with directory and metric projections at quiescence",
    text="TLC exhausts every interleaving of Accept/Destroy, the feeder goroutine and an unconstrained consumer (confirm, hand back, stall, stop early) over several generations on one directory at small constants, with UnloadChunk as three steps, and checks conservation (NoSilentLoss), no double confirmation, FIFO, the disk limit with the concurrent-save slack as a history variable, gauge soundness, chunk accounting, AllPersisted and DestroyTerminates under fairness. The real bufferer rebuilt from /repo is driven by the acceptor/consumer projection of TLC-simulated behaviours plus seeded scripts at four (queue, window, byte-limit, directory) settings, with schedule jitter at gates; every recorded trace - hook events of the feeder, Accept and UnloadChunk, harness events of the consumer, the directory listing with sizes and contents and the metric registry after every shutdown - must be explained by the spec.",
    note="Trusts TLC and the hook placement; the consumer is the harness (contract-abiding by construction); Accept and Destroy are never concurrent. A rejection is reported only if a re-run of the same script is rejected again."),
+ "C04": dict(cat="fault_enumeration", ref="5.3", engine="chunkfile",
+   technique="TLA+ spec ChunkFile (TLC exhaustive) bound to the real persistence/recovery code by replaying every fault scenario in victim/recovery child processes (RLIMIT_FSIZE, kill points in WriteFileAt) and TLC trace validation (ChunkFileTrace)",
+   text="TLC exhausts persist (open temp, write loop with arbitrary short writes, failure, close, rename, cleanup), process death at every step, a second life of the agent, external damage and the recovery scan/load/forward at 3 chunks x lengths 1-3, with NeverTruncatedUpstream, ChunkNamesAreWhole, MarkedSavedOnlyIfWhole, BadFileDoesNotBlock, FailedNotForwarded. Every scenario of the bounded grid (victim length x queue position x byte offset where the write stops x kill point x damaged neighbour x second life) and the fault projection of TLC-simulated behaviours is executed on the real file system: a victim child process persists chunks through the real bufferer under RLIMIT_FSIZE and dies at a verif kill point inside util.WriteFileAt; the parent lists the directory; a second child recovers it with a strict consumer; TLC must explain the listing and every forward/corrupt/read-failure event.",
+   note="Crash = process death with the page cache intact (no power loss, no fsync claim); faults produced by RLIMIT_FSIZE and by replacing a file with a directory; lengths 1-3 units at byte units 1/4096 (quick) and 1/512/4096/33000 (thorough)."),
 }
 NOT_YET = {
 }
